@@ -287,6 +287,51 @@ fn check_encoding(enc: &'static Encoding, st: &mut Stats) -> Option<String> {
             }
         }
     }
+    // ---- the same question asked of the one-shot methods: do the 128 ASCII bytes come back as the
+    // 128 ASCII characters?  The answer must be the predicate's, through every entry point (the
+    // replacement encoding and UTF-16 must not let ASCII through, ISO-2022-JP trips over SO/SI/ESC).
+    {
+        let all_ascii: Vec<u8> = (0..0x80u8).collect();
+        let as_text: String = all_ascii.iter().map(|b| *b as char).collect();
+        let r = fw::catch(|| {
+            let a = enc.decode(&all_ascii).0.into_owned();
+            let b = enc.decode_with_bom_removal(&all_ascii).0.into_owned();
+            let c = enc.decode_without_bom_handling(&all_ascii).0.into_owned();
+            let d = enc.decode_without_bom_handling_and_without_replacement(&all_ascii).map(|x| x.into_owned());
+            [Some(a), Some(b), Some(c), d]
+        });
+        match r {
+            Err(p) => return Some(format!("a one-shot decode method panicked on the 128 ASCII bytes: {}", p)),
+            Ok(outs) => {
+                for (i, o) in outs.iter().enumerate() {
+                    st.evals += 1;
+                    let through = o.as_deref() == Some(as_text.as_str());
+                    if through != enc.is_ascii_compatible() {
+                        return Some(format!("is_ascii_compatible() = {} but {} {} the 128 ASCII bytes as the 128 ASCII characters", enc.is_ascii_compatible(), ["decode", "decode_with_bom_removal", "decode_without_bom_handling", "decode_without_bom_handling_and_without_replacement"][i], if through { "returns" } else { "does not return" }));
+                    }
+                }
+            }
+        }
+        if enc.is_ascii_compatible() {
+            // ASCII among many malformed bytes (the one-shot methods grow their output on the way)
+            for k in 0..=48usize {
+                let mut v = vec![0xFFu8, b'a'];
+                v.extend(std::iter::repeat(0xFFu8).take(k));
+                v.push(b'z');
+                st.evals += 1;
+                let r = fw::catch(|| enc.decode_without_bom_handling(&v).0.into_owned());
+                match r {
+                    Err(p) => return Some(format!("decode_without_bom_handling panicked on {}: {}", fw::hex(&v), p)),
+                    Ok(t) => {
+                        let ascii: String = t.chars().filter(|c| (*c as u32) < 0x80).collect();
+                        if ascii != "az" {
+                            return Some(format!("is_ascii_compatible() = true but the two ASCII bytes of {} come out of decode_without_bom_handling as {:?}", fw::hex(&v), ascii));
+                        }
+                    }
+                }
+            }
+        }
+    }
     // ---- can_encode_everything: every scalar must come out as itself also from UTF-16 with a
     // destination of exactly the queried worst case (no silent substitution)
     if enc.can_encode_everything() && any_unmappable.is_none() {
